@@ -62,10 +62,14 @@ def check(chk):
     chk.ob("PAIR-17", "the interface writes to a temporary file, not to the data file itself", tmp not in ("filename", "") , f.where(sc),
            detail="writes to " + tmp, construct=f.ident, text="write target " + tmp)
     td = [x for x in walk_local(f.node) if isinstance(x, ast.Assign) and src(x.targets[0]) == tmp]
-    ok = bool(td) and "os.path.dirname(filename)" in src(td[0].value)
+    alias = [x for x in td if src(x.value) == "filename"]
+    chk.ob("PAIR-17", "the temporary name is never the data file's own name, on any path (also for the very first save of a file)", not alias,
+           f.where(alias[0]) if alias else f.where(), detail="an interrupted first write would leave its partial document under the real name",
+           construct=f.ident, text="temp name aliases the target")
+    ok = bool(td) and all("os.path.dirname(filename)" in src(x.value) for x in td)
     chk.ob("PAIR-17", "the temporary file lies in the same directory (rename stays on one file system)", ok, f.where(), construct=f.ident,
            text="temp file location")
-    ok = bool(td) and "os.path.basename(filename)" in src(td[0].value)
+    ok = bool(td) and all("os.path.basename(filename)" in src(x.value) for x in td)
     chk.ob("PAIR-17", "the temporary file is named after the data file: one temporary file per target, never shared between data managers", ok, f.where(),
            detail="temp name %s: with a shared name two writers truncate and rename each other's half-written file" % (src(td[0].value) if td else "?"),
            construct=f.ident, text="temp file name")
@@ -85,6 +89,21 @@ def check(chk):
     withs = [x for x in ast.walk(ys.node) if isinstance(x, ast.With) and any("open(filename, 'w'" in src(i.context_expr) for i in x.items)]
     ok = bool(withs) and any(call_attr(c) == "dump" for c in ast.walk(withs[0]) if isinstance(c, ast.Call))
     chk.ob("PAIR-17", "the YAML writer closes the file (with-block) before returning", ok, ys.where(), construct=ys.ident, text="with open")
+    # a failed write must reach FileManager.save as an exception: that is what keeps the rename from happening.  No handler in a writer
+    # (interface save) may end a failed dump normally.
+    for fn_ in [m for c_ in repo.all_classes("mpf/file_interfaces/") for m in c_.methods.values() if m.name == "save"] + [f]:
+        chk.analysed(fn_)
+        for t_ in [x for x in ast.walk(fn_.node) if isinstance(x, ast.Try)]:
+            if not any(isinstance(c_, ast.Call) and call_attr(c_) in ("dump", "save", "write") for b in t_.body for c_ in ast.walk(b)):
+                continue
+            for h in t_.handlers:
+                swallow = not any(isinstance(x, ast.Raise) for b in h.body for x in ast.walk(b))
+                chk.ob("PAIR-17", "a failed write leaves the writer as an exception (no handler ends it normally): the caller must not rename the file",
+                       not swallow, fn_.where(h), detail="handler for %s returns normally: FileManager.save then renames the empty/truncated temp file "
+                       "over the good data file" % (src(h.type) if h.type else "everything"), construct=fn_.ident,
+                       text="write failure swallowed in " + fn_.qualname)
+    dumps = [c_ for c_ in ys.calls() if call_attr(c_) == "dump"]
+    chk.ob("PAIR-17", "the YAML writer dumps the document", bool(dumps), ys.where(), construct=ys.ident, text="dump present")
 
     # writer and reader name the same text encoding explicitly: the platform default differs between machines (cp1252, C locale),
     # a file written with it is rejected by the utf8 reader on the next boot and every value in it is gone
@@ -474,6 +493,8 @@ def battery():
         M("replace in finally", FM, "            # move temp file\n            os.replace(temp_file, filename)\n        finally:\n            FileManager.is_busy = False", "        finally:\n            os.replace(temp_file, filename)\n            FileManager.is_busy = False", "PAIR-17"),
         M("write in place", FM, "FileManager.file_interfaces[ext].save(temp_file, data)", "FileManager.file_interfaces[ext].save(filename, data)", "PAIR-17"),
         M("replace arguments swapped", FM, "os.replace(temp_file, filename)", "os.replace(filename, temp_file)", "PAIR-17"),
+        M("first save written in place", FM, "            temp_file = os.path.dirname(filename) + os.sep + \"_\" + os.path.basename(filename)\n", "            if os.path.isfile(filename):\n                temp_file = os.path.dirname(filename) + os.sep + \"_\" + os.path.basename(filename)\n            else:\n                temp_file = filename\n", "PAIR-17"),
+        M("serialisation error swallowed in the writer", YI, "            dumper.dump(data, output_file)", "            try:\n                dumper.dump(data, output_file)\n            except Exception as e:\n                self.log.warning(\"YAML error %s\", e)", "PAIR-17"),
         M("temp file in /tmp", FM, "temp_file = os.path.dirname(filename) + os.sep + \"_\" + os.path.basename(filename)", "temp_file = \"/tmp/_\" + os.path.basename(filename)", "PAIR-17"),
         M("dirty cleared after successful write", DM, "            self._dirty.clear()\n\n            data = copy.deepcopy(self.data)\n            # save data\n            try:\n                FileManager.save(self.filename, data)", "            data = copy.deepcopy(self.data)\n            # save data\n            try:\n                FileManager.save(self.filename, data)\n                self._dirty.clear()", "FLOW-6"),
         M("writes live dict", DM, "                FileManager.save(self.filename, data)\n            except Exception as e:", "                FileManager.save(self.filename, self.data)\n            except Exception as e:", "FLOW-6"),
